@@ -61,7 +61,7 @@ func (f *UnreadChar) Call(s *slip.Scope, args slip.List, depth int) slip.Object 
 	}
 	var rp runePusher
 	if rp, ok = is.(runePusher); !ok {
-		slip.TypePanic(s, depth, "stream", args[1], "input-stream")
+		slip.TypePanic(s, depth, "stream", is, "input-stream")
 	}
 	rp.PushRune(rune(c))
 
